@@ -21,3 +21,9 @@ package art
 //@   modifies nothing
 //@   ensures result != nil && fresh(result)
 //@   ensures upperBound == "" && itValid(result) ==> curKey(result) == maxKeyOf(t) && minKeyOf(t) <= maxKeyOf(t)
+
+// (C08: also makes the arena's generic value log available in its instantiation for the ART)
+//@ func (*ART) Len
+//@   prop C08
+//@   pure
+//@   ensures result == t.len
